@@ -8,21 +8,24 @@ use crate::core::{search, Ctx, Search};
 use crate::rt::Disc;
 
 /// site groups: multi-RP (reference store) and single-RP (shipped stores)
-const MULTI: [&[usize]; 3] = [&[0, 2, 3, 1], &[5, 7, 2, 8], &[4, 6, 0, 3]];
-const SINGLE: [&[usize]; 3] = [&[0, 1, 8], &[2], &[5]];
+const MULTI: [&[usize]; 4] = [&[0, 2, 3, 1], &[5, 7, 2, 8], &[4, 6, 0, 3], &[9, 10, 4, 1]];
+const SINGLE: [&[usize]; 4] = [&[0, 1, 8], &[2], &[5], &[9]];
 
 fn ops(sites: Vec<usize>, max: usize) -> impl Strategy<Value = Vec<Op>> {
-    proptest::collection::vec(prop_oneof![2 => cm::reg_op(sites.clone()).prop_map(Op::Reg), 3 => cm::auth_op(sites).prop_map(Op::Auth)], 1..max)
+    // mostly through the client; some assertions directly at the CTAP2 level (any held credential, also ones whose RP ID
+    // the client would never produce)
+    proptest::collection::vec(prop_oneof![4 => cm::reg_op(sites.clone()).prop_map(Op::Reg), 6 => cm::auth_op(sites).prop_map(Op::Auth), 1 => (any::<u16>(), any::<bool>()).prop_map(|(target, uv)| Op::CtapAuth { target, up: true, uv, extra_uv: false })], 1..max)
 }
 
 fn strategy() -> impl Strategy<Value = History> {
-    let multi = (0usize..3).prop_flat_map(|g| {
+    let multi = (0usize..4).prop_flat_map(|g| {
         let sites = MULTI[g].to_vec();
         let s2 = sites.clone();
         (Just(StoreKind::Ref), prop_oneof![Just(Disc::Full), Just(Disc::ForcedDiscoverable)], cm::auth_cfg(), proptest::collection::vec((any::<u8>(), proptest::option::of(any::<u32>()), any::<bool>()), 0..4), ops(sites, 13))
-            .prop_map(move |(store, disc, cfg, pre, ops)| History { store, disc, cfg, preload: pre.into_iter().map(|(s, c, u)| (s2[s as usize % s2.len()], c, u)).collect(), ops })
+            // one preload in five is held for an RP ID that only exists at the CTAP2 level (mixed case)
+            .prop_map(move |(store, disc, cfg, pre, ops)| History { store, disc, cfg, preload: pre.into_iter().map(|(s, c, u)| (if s % 5 == 4 { 100 + (s as usize / 5) % 2 } else { s2[s as usize % s2.len()] }, c, u)).collect(), ops })
     });
-    let single = (0usize..3).prop_flat_map(|g| {
+    let single = (0usize..4).prop_flat_map(|g| {
         let sites = SINGLE[g].to_vec();
         let s2 = sites.clone();
         (prop_oneof![2 => Just(StoreKind::Memory), 1 => Just(StoreKind::OptionSlot), 1 => Just(StoreKind::Ref)], Just(Disc::ForcedDiscoverable), cm::auth_cfg(), proptest::collection::vec((any::<u8>(), proptest::option::of(any::<u32>()), any::<bool>()), 0..3), ops(sites, 13))
@@ -74,7 +77,7 @@ fn check(ctx: &mut Ctx, h: &History) -> Result<(), String> {
 }
 
 pub fn run(ctx: &mut Ctx) {
-    ctx.rule = "interleaved histories (up to 12 operations) of registrations and authentications over 2-4 (origin, RP ID) sites and several users, pre-loaded credentials, allow lists (absent, empty, known ids, unknown ids, ids of another RP, unknown descriptor types), challenges, client-data modes and UV requirements; multi-RP histories on the reference store, single-RP histories also on MemoryStore and the single-slot Option store. Non-trivial = an authentication that reached the authenticator (success or credential-not-found); distinct by (store, preload, position, request).".into();
+    ctx.rule = "interleaved histories (up to 12 operations) of registrations and authentications over 2-4 (origin, RP ID) sites and several users, pre-loaded credentials, allow lists (absent, empty, known ids, unknown ids, ids of another RP, unknown descriptor types), challenges, client-data modes and UV requirements; multi-RP histories on the reference store (sites include names below 'localhost'; some pre-loaded credentials are held for mixed-case RP IDs that only a CTAP2-level caller can name), single-RP histories also on MemoryStore and the single-slot Option store; about one operation in eleven is an assertion made directly at the CTAP2 level and judged the same way (rpIdHash, signature, user handle). Non-trivial = an authentication that reached the authenticator (success or credential-not-found); distinct by (store, preload, position, request).".into();
     ctx.assumptions = vec![
         "the user always consents (presence and verification reported); consent failures are C04".into(),
         "eligible = credentials registered for the effective RP ID and, for a non-empty allow list, named in it (by id, regardless of descriptor type)".into(),
